@@ -65,6 +65,10 @@ pub struct FailCase {
     /// every command asks for setuid/setgid to the current (root) identity
     #[serde(default)]
     pub ids: bool,
+    /// the started commands were given a stderr pipe of their own (Exec::stderr(Pipe)),
+    /// which they fill before they look at their input
+    #[serde(default)]
+    pub member_err_pipe: bool,
 }
 
 pub fn compatible(stdin: SIn, term: STerm) -> bool {
@@ -93,6 +97,9 @@ fn build_and_run(case: &FailCase, helper: std::path::PathBuf, markers: std::path
         };
         if case.detached {
             e = e.detached();
+        }
+        if case.member_err_pipe && !(case.cause == Cause::Missing && i == case.k) {
+            e = e.stderr(Redirection::Pipe);
         }
         if case.ids {
             use subprocess::ExecExt;
@@ -202,7 +209,7 @@ pub fn check_case(ctx: &Ctx, case: &FailCase, rep: &mut CaseReport) -> CaseResul
     let fail = |sig: &str, msg: String| Err(Fail::new(format!("C14:{}", sig), format!("{}\ncase={:?}", msg, case)));
 
     if case.k >= 1 || case.cause == Cause::Pipe {
-        rep.nontrivial(format!("n{}|k{}|{:?}|{:?}|{:?}|det{}|linger{}|igterm{}|errlines{}|ids{}", case.n, case.k, case.cause, case.stdin, case.term, case.detached as u8, case.linger_ms, case.ign_term as u8, case.err_lines, case.ids as u8));
+        rep.nontrivial(format!("n{}|k{}|{:?}|{:?}|{:?}|det{}|linger{}|igterm{}|errlines{}|ids{}|ownerr{}", case.n, case.k, case.cause, case.stdin, case.term, case.detached as u8, case.linger_ms, case.ign_term as u8, case.err_lines, case.ids as u8, case.member_err_pipe as u8));
     }
 
     let before = fd_snapshot();
@@ -385,7 +392,7 @@ pub fn enumerate(tier: Tier) -> Vec<FailCase> {
         for stdin in [SIn::Inherit, SIn::Pipe, SIn::File] {
             for term in [STerm::Popen, STerm::Join, STerm::StreamStdin] {
                 if compatible(stdin, term) {
-                    v.push(FailCase { n, k: n - 1, cause: Cause::BadConfig, stdin, term, detached: false, linger_ms: 0, ign_term: false, err_lines: 0, ids: false });
+                    v.push(FailCase { n, k: n - 1, cause: Cause::BadConfig, stdin, term, detached: false, linger_ms: 0, ign_term: false, err_lines: 0, ids: false, member_err_pipe: false });
                 }
             }
         }
@@ -398,24 +405,28 @@ pub fn enumerate(tier: Tier) -> Vec<FailCase> {
                             continue;
                         }
                         for detached in [false, true] {
-                            v.push(FailCase { n, k, cause: *cause, stdin, term, detached, linger_ms: 0, ign_term: false, err_lines: 0, ids: false });
+                            v.push(FailCase { n, k, cause: *cause, stdin, term, detached, linger_ms: 0, ign_term: false, err_lines: 0, ids: false, member_err_pipe: false });
+                        }
+                        if *cause == Cause::Missing && k >= 1 && matches!(term, STerm::Popen | STerm::Join | STerm::StreamStdin | STerm::StreamStdout) && n <= 4 {
+                            // started commands with a stderr pipe of their own, filled beyond its capacity
+                            v.push(FailCase { n, k, cause: *cause, stdin, term, detached: false, linger_ms: 0, ign_term: false, err_lines: 15000, ids: false, member_err_pipe: true });
                         }
                         if *cause == Cause::Missing {
                             // commands that also change identity (to the identity they already have)
-                            v.push(FailCase { n, k, cause: *cause, stdin, term, detached: false, linger_ms: 0, ign_term: false, err_lines: 0, ids: true });
+                            v.push(FailCase { n, k, cause: *cause, stdin, term, detached: false, linger_ms: 0, ign_term: false, err_lines: 0, ids: true, member_err_pipe: false });
                         }
                         // started commands that take their time, ignore SIGTERM, or have
                         // filled the shared stderr pipe before the failure is noticed
                         if k >= 1 && *cause == Cause::Missing && (n <= 3 || tier == Tier::Thorough) {
-                            v.push(FailCase { n, k, cause: *cause, stdin, term, detached: false, linger_ms: 300, ign_term: false, err_lines: 0, ids: false });
-                            v.push(FailCase { n, k, cause: *cause, stdin, term, detached: false, linger_ms: 600, ign_term: true, err_lines: 0, ids: false });
+                            v.push(FailCase { n, k, cause: *cause, stdin, term, detached: false, linger_ms: 300, ign_term: false, err_lines: 0, ids: false, member_err_pipe: false });
+                            v.push(FailCase { n, k, cause: *cause, stdin, term, detached: false, linger_ms: 600, ign_term: true, err_lines: 0, ids: false, member_err_pipe: false });
                             // detached commands that take their time: not to be waited for
-                            v.push(FailCase { n, k, cause: *cause, stdin, term, detached: true, linger_ms: 400, ign_term: false, err_lines: 0, ids: false });
+                            v.push(FailCase { n, k, cause: *cause, stdin, term, detached: true, linger_ms: 400, ign_term: false, err_lines: 0, ids: false, member_err_pipe: false });
                             if term == STerm::Communicate {
-                                v.push(FailCase { n, k, cause: *cause, stdin, term, detached: false, linger_ms: 400, ign_term: false, err_lines: 0, ids: false });
+                                v.push(FailCase { n, k, cause: *cause, stdin, term, detached: false, linger_ms: 400, ign_term: false, err_lines: 0, ids: false, member_err_pipe: false });
                             }
                             if matches!(term, STerm::Capture | STerm::Communicate) {
-                                v.push(FailCase { n, k, cause: *cause, stdin, term, detached: false, linger_ms: 0, ign_term: false, err_lines: 15000, ids: false });
+                                v.push(FailCase { n, k, cause: *cause, stdin, term, detached: false, linger_ms: 0, ign_term: false, err_lines: 15000, ids: false, member_err_pipe: false });
                             }
                         }
                     }
